@@ -670,12 +670,241 @@ def unroll_table_loops(tree: ast.Module, lookup=None) -> int:
     return count
 
 
+# --------------------------------------------------------------------------- N17: a condition named once, tested at once
+def _fold_named_conditions(fn: ast.AST) -> int:
+    """N17:  due = bool(token and token.is_cancelled and not sent)        if token and token.is_cancelled and not sent:
+             if not due: return                                      ->       …
+    for a local bound to a side-effect-free boolean expression and read exactly once, by the `if` that follows at once.
+    `bool(E)` in a test is `E`."""
+    count = 0
+    uses = {}
+    for n in ast.walk(fn):
+        if isinstance(n, ast.Name):
+            uses.setdefault(n.id, []).append(n)
+    nonlocal_ = {x for n in ast.walk(fn) if isinstance(n, (ast.Nonlocal, ast.Global)) for x in n.names}
+
+    def strip_bool(e):
+        while isinstance(e, ast.Call) and isinstance(e.func, ast.Name) and e.func.id == "bool" and len(e.args) == 1 and not e.keywords:
+            e = e.args[0]
+        return e
+
+    def boolean(e) -> bool:
+        return isinstance(e, (ast.BoolOp, ast.Compare)) or (isinstance(e, ast.UnaryOp) and isinstance(e.op, ast.Not)) or (isinstance(e, ast.Call) and isinstance(e.func, ast.Name) and e.func.id == "bool")
+
+    for node in ast.walk(fn):
+        for field in ("body", "orelse", "finalbody"):
+            lst = getattr(node, field, None)
+            if not (isinstance(lst, list) and lst and isinstance(lst[0], ast.stmt)):
+                continue
+            i = 0
+            while i + 1 < len(lst):
+                a, b = lst[i], lst[i + 1]
+                i += 1
+                if not (isinstance(a, ast.Assign) and len(a.targets) == 1 and isinstance(a.targets[0], ast.Name) and isinstance(b, ast.If)):
+                    continue
+                c = a.targets[0].id
+                if c in nonlocal_ or len(uses.get(c, [])) != 2 or not boolean(a.value) or not _pure_expr(a.value):
+                    continue
+                t = b.test
+                neg = isinstance(t, ast.UnaryOp) and isinstance(t.op, ast.Not)
+                core = t.operand if neg else t
+                if not (isinstance(core, ast.Name) and core.id == c):
+                    continue
+                if any(isinstance(x, (ast.FunctionDef, ast.AsyncFunctionDef, ast.Lambda)) and any(isinstance(y, ast.Name) and y.id == c for y in ast.walk(x)) for x in ast.walk(fn) if x is not fn):
+                    continue
+                e = strip_bool(a.value)
+                b.test = ast.copy_location(ast.UnaryOp(op=ast.Not(), operand=e), t) if neg else e
+                i -= 1
+                del lst[i]
+                count += 1
+    # `if bool(E)` / `while not bool(E)`
+    for n in ast.walk(fn):
+        if isinstance(n, (ast.If, ast.While, ast.IfExp)):
+            t = n.test
+            if isinstance(t, ast.UnaryOp) and isinstance(t.op, ast.Not):
+                k = strip_bool(t.operand)
+                if k is not t.operand:
+                    t.operand = k
+                    count += 1
+            else:
+                k = strip_bool(t)
+                if k is not t:
+                    n.test = k
+                    count += 1
+    return count
+
+
+# --------------------------------------------------------------------------- N16: a loop over a one-loop generator helper -> that loop
+def fuse_generator_loops(tree: ast.Module) -> int:
+    """N16:  def selected(model, include):                    for key_g, value_g in self.__dict__.items():
+                 for key, value in model.__dict__.items():        if include and key_g not in include:
+                     if include and key not in include:               continue
+                         continue                          ->     k, v = (key_g, value_g)
+                     yield key, value                             BODY
+             for k, v in selected(self, include): BODY
+    for a generator defined once in the module (or a method of the caller's class called through `self`) whose body is one
+    `for` loop, whose `yield`s are plain statements in tail position of that loop's body (after a `yield` the next thing is
+    the next iteration), and which is called with plain references for arguments it never rebinds.  `break`/`continue` of
+    BODY keep their meaning: both loops end together, and resuming the generator after its `yield` *is* the next iteration."""
+    defs = {}
+    for n in ast.walk(tree):
+        if isinstance(n, ast.FunctionDef):
+            defs.setdefault(n.name, []).append(n)
+
+    def tail_yields(body, out) -> bool:
+        """every Yield in `body` is a statement in tail position; collects (list, index) of each"""
+        for i, st in enumerate(body):
+            last = i == len(body) - 1
+            if isinstance(st, ast.Expr) and isinstance(st.value, ast.Yield):
+                if not last or st.value.value is None:
+                    return False
+                out.append((body, i))
+                continue
+            has = any(isinstance(x, (ast.Yield, ast.YieldFrom)) for x in ast.walk(st))
+            if not has:
+                continue
+            if not last or not isinstance(st, ast.If):
+                return False
+            if not tail_yields(st.body, out) or not tail_yields(st.orelse, out):
+                return False
+        return True
+
+    def shape(g: ast.FunctionDef):
+        a = g.args
+        if a.vararg or a.kwarg or a.kwonlyargs or a.posonlyargs or any(not (isinstance(d, ast.Name) and d.id in ("staticmethod",)) for d in g.decorator_list):
+            return None
+        body = [s_ for s_ in g.body if not (isinstance(s_, ast.Expr) and isinstance(s_.value, ast.Constant))]
+        if len(body) != 1 or not isinstance(body[0], ast.For) or body[0].orelse:
+            return None
+        loop = body[0]
+        if any(isinstance(x, (ast.Return, ast.YieldFrom, ast.Try, ast.With, ast.AsyncWith, ast.FunctionDef, ast.AsyncFunctionDef, ast.Lambda, ast.Global, ast.Nonlocal, ast.Await)) for x in ast.walk(loop)):
+            return None
+        if any(isinstance(x, (ast.Yield, ast.YieldFrom)) for x in ast.walk(loop.iter)):
+            return None
+        ys = []
+        if not tail_yields(loop.body, ys) or not (1 <= len(ys) <= 2):
+            return None
+        params = [p.arg for p in a.args]
+        stored = {x.id for x in ast.walk(loop) if isinstance(x, ast.Name) and isinstance(x.ctx, (ast.Store, ast.Del))}
+        if stored & set(params):
+            return None
+        return loop, params, stored
+
+    def simple(x):
+        return isinstance(x, (ast.Constant, ast.Name)) or (isinstance(x, ast.Attribute) and simple(x.value))
+
+    count = 0
+
+    def visit_fn(fn, cls):
+        nonlocal count
+        used = {x.id for x in ast.walk(fn) if isinstance(x, ast.Name)} | {p.arg for p in fn.args.args + fn.args.kwonlyargs}
+
+        class F(ast.NodeTransformer):
+            def visit_FunctionDef(self, node):
+                return node if node is not fn else self.generic_visit(node)
+
+            visit_AsyncFunctionDef = visit_FunctionDef
+
+            def visit_Lambda(self, node):
+                return node
+
+            def visit_For(self, node: ast.For):
+                self.generic_visit(node)
+                nonlocal count
+                c = node.iter
+                if node.orelse or not isinstance(c, ast.Call) or c.keywords and any(k.arg is None for k in c.keywords):
+                    return node
+                g = None
+                skip_self = False
+                if isinstance(c.func, ast.Name) and len(defs.get(c.func.id, [])) == 1:
+                    g = defs[c.func.id][0]
+                    if any(g in getattr(k, "body", []) for k in ast.walk(tree) if isinstance(k, ast.ClassDef)):
+                        g = None  # a method is not reachable by its bare name
+                elif isinstance(c.func, ast.Attribute) and isinstance(c.func.value, ast.Name) and c.func.value.id == "self" and cls is not None:
+                    ms = [m for m in cls.body if isinstance(m, ast.FunctionDef) and m.name == c.func.attr]
+                    if len(ms) == 1 and not ms[0].decorator_list and ms[0].args.args and ms[0].args.args[0].arg == "self":
+                        g, skip_self = ms[0], True
+                if g is None or g is fn:
+                    return node
+                sh = shape(g)
+                if sh is None:
+                    return node
+                loop, params, stored = sh
+                args = ([ast.Name(id="self", ctx=ast.Load())] if skip_self else []) + list(c.args)
+                binding = dict(zip(params, args))
+                for k in c.keywords:
+                    if k.arg in binding or k.arg not in params:
+                        return node
+                    binding[k.arg] = k.value
+                defaults = dict(zip(params[len(params) - len(g.args.defaults):], g.args.defaults))
+                for p in params:
+                    if p not in binding:
+                        if p not in defaults or not isinstance(defaults[p], ast.Constant):
+                            return node
+                        binding[p] = defaults[p]
+                if len(args) > len(params) or not all(simple(v) for v in binding.values()):
+                    return node
+                if any(isinstance(v, ast.Attribute) for v in binding.values()) and any(isinstance(x, ast.Attribute) and isinstance(x.ctx, (ast.Store, ast.Del)) for b in node.body + [loop] for x in ast.walk(b)):
+                    return node  # an attribute handed over is read once by the call; a store in between could change what it names
+                # the caller's names the arguments mention must not be rebound by BODY (the generator keeps what it was given)
+                arg_names = {x.id for v in binding.values() for x in ast.walk(v) if isinstance(x, ast.Name)}
+                body_stores = {x.id for b in node.body for x in ast.walk(b) if isinstance(x, ast.Name) and isinstance(x.ctx, (ast.Store, ast.Del))}
+                tgt_names = {x.id for x in ast.walk(node.target) if isinstance(x, ast.Name)}
+                if arg_names & (body_stores | tgt_names):
+                    return node
+                ren = {}
+                for nm in sorted(stored):
+                    k = nm + "_g"
+                    while k in used:
+                        k += "_"
+                    ren[nm] = k
+                    used.add(k)
+
+                class S(ast.NodeTransformer):
+                    def visit_Name(self_, n_):
+                        if n_.id in ren:
+                            return ast.copy_location(ast.Name(id=ren[n_.id], ctx=n_.ctx), n_)
+                        if isinstance(n_.ctx, ast.Load) and n_.id in binding:
+                            return ast.copy_location(copy.deepcopy(binding[n_.id]), n_)
+                        return n_
+
+                new = S().visit(copy.deepcopy(loop))
+                ys = []
+                tail_yields(new.body, ys)
+                for k_, (lst, i) in enumerate(ys):
+                    val = lst[i].value.value
+                    bind = ast.Assign(targets=[copy.deepcopy(node.target)], value=val, lineno=node.lineno)
+                    lst[i:i + 1] = [bind] + (node.body if k_ == len(ys) - 1 else copy.deepcopy(node.body))
+                ast.copy_location(new, node)
+                count += 1
+                return new
+
+        F().visit(fn)
+
+    def walk_scopes(node, cls):
+        for ch in ast.iter_child_nodes(node):
+            if isinstance(ch, (ast.FunctionDef, ast.AsyncFunctionDef)):
+                visit_fn(ch, cls)
+                walk_scopes(ch, None)
+            elif isinstance(ch, ast.ClassDef):
+                walk_scopes(ch, ch)
+            else:
+                walk_scopes(ch, cls)
+
+    walk_scopes(tree, None)
+    if count:
+        ast.fix_missing_locations(tree)
+    return count
+
+
 def normalize(tree: ast.Module) -> int:
     nz = Normalizer()
     nz.visit(tree)
     for fn_ in [x for x in ast.walk(tree) if isinstance(x, (ast.FunctionDef, ast.AsyncFunctionDef))]:
         nz.count += _fuse_filter_loops(fn_)
+        nz.count += _fold_named_conditions(fn_)
     nz.count += _inline_function_aliases(tree)
+    nz.count += fuse_generator_loops(tree)
     for node in ast.walk(tree):
         for field in ("body", "orelse", "finalbody"):
             v = getattr(node, field, None)
